@@ -447,6 +447,69 @@ func c09Worker(seed uint64, tier, out string) error {
 			}
 		}
 	}
+	// ---- a base template without file system and without data (vuego.New()), shared by all requests ----
+	bare := vuego.New()
+	for round := 0; round < 6; round++ {
+		N := []int{2, 4, 8, 16, 8, 4}[round]
+		type req struct {
+			who string
+			tpl string
+		}
+		mk := func(g, i int) req {
+			who := fmt.Sprintf("u%d_%d_%d", round, g, i)
+			return req{who: who, tpl: `<template :seen="who" :n="1 + 1"></template><p>hello {{ who }}</p><i>{{ who | upper }}</i><p>bye {{ seen }} {{ n }}</p><b v-for="x in xs">{{ x }}{{ who }}</b>`}
+		}
+		do := func(base vuego.Template, q req) (res c09Res) {
+			defer func() {
+				if x := recover(); x != nil {
+					res = c09Res{Err: fmt.Sprintf("PANIC %v", x)}
+				}
+			}()
+			var buf bytes.Buffer
+			err := base.New().Assign("who", q.who).Assign("xs", []any{1, 2}).RenderString(context.Background(), &buf, q.tpl)
+			res.Out = buf.String()
+			if err != nil {
+				res.Err = err.Error()
+			}
+			return res
+		}
+		got := make([][]c09Res, N)
+		start := make(chan struct{})
+		var wg sync.WaitGroup
+		for g := 0; g < N; g++ {
+			wg.Add(1)
+			go func(g int) {
+				defer wg.Done()
+				<-start
+				for i := 0; i < 5; i++ {
+					got[g] = append(got[g], do(bare, mk(g, i)))
+				}
+			}(g)
+		}
+		close(start)
+		wg.Wait()
+		for g := 0; g < N; g++ {
+			for i := 0; i < 5; i++ {
+				q := mk(g, i)
+				alone := do(vuego.New(), q)
+				rep.Calls++
+				rep.Rounds["bare-base"]++
+				rep.Kinds["bare.New.Assign.RenderString"]++
+				if alone != got[g][i] && len(rep.Diffs) < 40 {
+					rep.Diffs = append(rep.Diffs, c09Diff{Set: "bare", Round: "bare-base", N: N, Call: c09Call{Kind: "bare.New.Assign.RenderString", Tpl: q.tpl, Idx: g*10 + i}, Alone: alone, Shared: got[g][i]})
+				}
+			}
+		}
+		// what the requests assigned must not be visible on the base afterwards
+		var buf bytes.Buffer
+		_ = bare.RenderString(context.Background(), &buf, `[{{ who }}{{ seen }}]`)
+		rep.Calls++
+		rep.Rounds["bare-base"]++
+		rep.Kinds["bare.RenderString"]++
+		if strings.TrimSpace(buf.String()) != "[]" && len(rep.Diffs) < 40 {
+			rep.Diffs = append(rep.Diffs, c09Diff{Set: "bare", Round: "bare-base", N: N, Call: c09Call{Kind: "bare.RenderString", Tpl: "[{{ who }}{{ seen }}]"}, Alone: c09Res{Out: "[]"}, Shared: c09Res{Out: buf.String()}})
+		}
+	}
 	b, _ := json.MarshalIndent(rep, "", " ")
 	return os.WriteFile(filepath.Join(out, "conc.json"), b, 0o644)
 }
